@@ -27,6 +27,14 @@ CLAIMED = {
         technique="MIR path-sensitive guard analysis across contracts: pause / open / registered guards as facts on every success path of the tabled arms, cross-contract query parsing, registry guards, shutdown filter",
         note="Decided: R14.1 State.pause tested on every success path of Open/Close/Deposit/Withdraw and never consulted by the Liquidate/PayFunding chains; R14.2 vAMM State.open tested in SwapInput/SwapOutput/SettleFunding; R14.3 IsVamm{msg.vamm} on config.insurance_fund and State.open of msg.vamm in Open/Liquidate/Withdraw/PayFunding; R14.4 duplicate and capacity(=3) guards before every registry store, membership queries read the same item; R14.5 shutdown emits SetOpen{false} only for vAMMs just read as open. Not decided: the run-time effect of a closed vAMM on ClosePosition is the composition of R14.2 with C08 (not re-derived).",
         design="4/C14"),
+    "C10": dict(
+        technique="MIR stored-value flow: origin of the (vamm, trader) pair in every position store/remove key and in every tmp-swap store, per execute->reply chain step; field-assignment census; query entry signatures; unsafe census with fixture",
+        note="Decided: R10.1 position writes key on (msg.vamm, info.sender) in execute arms / (tmp_swap.vamm, tmp_swap.trader) in replies / msg.trader for Liquidate; R10.2 tmp-swap.trader origin; R10.3 Position.vamm/trader assigned only from the requested key; R10.4 queries take read-only Deps, no unsafe (positive-control fixture); R10.5 DepositMargin proves position.trader == info.sender. Not decided: key aliasing through the separator-free sha3(vamm||trader) for address strings a real chain's addr_validate would reject; re-entrancy via a malicious vAMM.",
+        design="4/C10"),
+    "C03": dict(
+        technique="MIR message census over all product code (+fixture) and receiver/payer origin analysis of every transfer constructible on each chain step",
+        note="Decided: R03.1 only BankMsg::Send, cw20 Transfer/TransferFrom, WasmMsg::Execute with empty funds, vAMM swap/funding/SetOpen and insurance Withdraw messages are constructed anywhere; R03.2 engine transfers go to config.insurance_fund/config.fee_pool/engine/acting trader/stored liquidator and are paid by the acting trader or the vault; R03.3 liquidation replies never pay or charge the liquidated trader; R03.4 insurance Withdraw pays config.engine. Not decided: amounts and conservation inside bank/cw20 (trusted); fee-pool SendToken recipient is arbitrary by design.",
+        design="4/C03"),
 }
 
 NOT_BUILT = "rules designed in DESIGN.md section 4 but not built yet"
